@@ -99,7 +99,7 @@ class BufInterp(FinamInterp):
     def ext_call(self, name, args, kwargs, node):
         if name in ("np.stack", "numpy.stack"):
             return Sym("stack", tuple(args[0]))
-        if name.split(".")[-1] in ("array_equal", "allclose", "array_equiv", "may_share_memory", "shares_memory"):
+        if name.split(".")[-1] in ("array_equal", "allclose", "isclose", "array_equiv", "may_share_memory", "shares_memory"):
             return self.decide(Sym(name.split(".")[-1], *args), node)  # value dependent: both outcomes are explored
         return super().ext_call(name, args, kwargs, node)
 
@@ -163,7 +163,8 @@ def _adapter_obj(repo, cname, n, kinds=None, extra=None, ctor=None):
     set_backed(repo, o, "name", cname)
     set_backed(repo, o, "in_info", Obj(label="in_info", fields={"grid": Sym("grid"), "units": Sym("u_in")}))
     set_backed(repo, o, "info", Obj(label="out_info", fields={"grid": Sym("grid"), "units": Sym("u_out")}))
-    o.fields[_total_attr(repo, cname)] = Sym("mem0")
+    from .spill2 import role_set
+    role_set(o, _total_attr(repo, cname), Sym("mem0"))
     if extra:
         extra = dict(extra)
         if PREV in extra:
@@ -342,8 +343,14 @@ def _tn(t):
 
 def _fresh(o):
     n = Obj(cls=o.cls, label=o.label, markers=o.markers)
-    n.fields = {k: (list(v) if isinstance(v, list) else dict(v) if isinstance(v, dict) else v) for k, v in o.fields.items()}
+    n.fields = {k: (list(v) if isinstance(v, list) else dict(v) if isinstance(v, dict)
+                    else _fresh(v) if isinstance(v, Obj) and v.cls is not None and v.cls.name.startswith("_") else v) for k, v in o.fields.items()}
     return n
+
+
+def _role_get(o, path):
+    from .spill2 import role_get
+    return role_get(o, path)
 
 
 def _pos_txt(pos):
@@ -388,6 +395,10 @@ def _judge_interp(kind, exp, decs, okind, val, n, pos):
                     d = ("dt", c.op, v)
                 elif a == Sym("step") and _poly_eq(b, dt):
                     d = ("step", c.op, v)
+        tol = [c for c, v in decs if isinstance(c, Sym) and c.op in ("isclose", "allclose") and v]
+        if tol:
+            return (f"a tolerance test ({tol[0]!r}) takes part in choosing the value: positions that differ from the step position by less than the "
+                    "tolerance are served the other side's value; the step interpolant is defined by the exact comparison dt > step")
         if d is None:
             return f"returns {val!r} without comparing the relative position with the step"
         side, op, v = d
@@ -571,7 +582,7 @@ def _run_keep(it, f, o, args, conn_key=False):
     obj = _fresh(o)
     it.effects = []
     ret = it.run(f, args, self_obj=obj)
-    out = (ret, list(obj.fields["data"]), list(it.effects), obj.fields.get(_total_attr(it.repo, obj.cls.name)))
+    out = (ret, list(obj.fields["data"]), list(it.effects), _role_get(obj, _total_attr(it.repo, obj.cls.name)))
     if conn_key:
         out = out + (dict(obj.fields[_registry_attr(it.repo)]),)
     return out
@@ -601,9 +612,10 @@ def _output_obj(repo, n, kinds, conn, static=False):
             o.fields[k2] = len(conn)
     set_backed(repo, o, "time", T(n - 1) if n else None)
     roles = spill_roles(repo, "Output")
-    o.fields[roles["total"]] = Sym("mem0")
+    from .spill2 import role_set
+    role_set(o, roles["total"], Sym("mem0"))
     if roles["counter"] is not None:
-        o.fields[roles["counter"]] = Sym("counter")
+        role_set(o, roles["counter"], Sym("counter"))
     return o
 
 
@@ -693,6 +705,37 @@ def r17_nearest(repo, sink, tier="quick"):
                ok=f"{cases} order types: nearest publication served, range refusals are FinamTimeError / FinamNoDataError",
                bad=worst or "", cases=cases)
     sink.floor("R17", "order types", cases, 20)
+    # what one consumer asked before does not change what another one is served: a fast consumer reads the newest publication,
+    # then a slower one asks for an older time on the very same output
+    Q2 = Sym("q2")
+    worst2, cases2 = None, 0
+    n = 3
+    for late in (("eq", 2), ("hi", 1), ("eq", 1)):
+        for early in (("eq", 0), ("lo", 0), ("hi", 0), ("eq", 1)):
+            if (early[1], early[0] != "eq") >= (late[1], late[0] != "eq") and not (early == ("eq", 1) and late[1] == 2):
+                continue
+            order = make_order(n, {Q: late, Q2: early})
+            it = BufInterp(repo, order)
+            a, b = Obj(label="A"), Obj(label="B")
+            o = _fresh(_output_obj(repo, n, ["ram"] * n, {a: None, b: None}))
+            cases2 += 1
+            try:
+                it.run(f, [Q, a], self_obj=o)
+                got = it.run(f, [Q2, b], self_obj=o)
+            except Raised as r:
+                worst2 = worst2 or f"fast consumer asks {_pos_txt(late)}, then the slow one {_pos_txt(early)}: raises {r.name}"
+                continue
+            except Undecided as u:
+                raise AnalysisError(f"Output.get_data (two consumers): undecidable condition {u}") from u
+            i = early[1]
+            allowed = {"eq": [V(i)], "lo": [V(i)], "hi": [V(i + 1)], "mid": [V(i), V(i + 1)]}[early[0]]
+            val = got[0] if isinstance(got, tuple) else got
+            if val not in allowed:
+                worst2 = worst2 or (f"fast consumer asks {_pos_txt(late)}, then the slow one {_pos_txt(early)}: the slow one is served {val!r}, "
+                                    f"its nearest publication is {allowed!r} (a lookup must not depend on what other consumers asked before)")
+    sink.check(worst2 is None, "R17", "nearest:independent-of-other-consumers", f,
+               ok=f"{cases2} request pairs: a slower consumer is served its own nearest publication after a faster one has read ahead", bad=worst2 or "")
+    sink.floor("R17", "two-consumer request pairs", cases2, 6)
 
 
 # =========================================================================== R04
@@ -738,7 +781,7 @@ def r04_cmp(repo, sink):
     # both _get_data implementations check the request against (oldest, newest) of their own buffer:
     # observed in an abstract run (the arguments check_time receives), independent of how the call is written
     for cname, rep in (("TimeCachingAdapter", "LinearTime"), ("TimeIntegrationAdapter", "AvgOverTime")):
-        g = repo.own(cname, "_get_data")
+        g = repo.method(rep, "_get_data")  # whatever the representative concrete class resolves to
         o = Order()
         for i in range(3):
             o.name(T(i), f"t{i}", 4 * i)
@@ -789,7 +832,7 @@ class _RangeProbe(BufInterp):
 # =========================================================================== R26
 def r26_buffer(repo, sink):
     for cname in ("TimeCachingAdapter", "TimeIntegrationAdapter"):
-        f = repo.own(cname, "_source_updated")
+        f = repo.method("NextTime" if cname == "TimeCachingAdapter" else "SumOverTime", "_source_updated")
         o = Order()
         tn = Sym("tn")
         o.name(tn, "tn", 5)
@@ -872,7 +915,7 @@ def r26_buffer(repo, sink):
                    ok="a notification appends (time, packed data) and leaves every buffered entry untouched", bad=worst or "")
     sink.floor("R26", "buffering adapter classes", n_cls, 7)
     # second notification for the integration adapter must not move _prev_time
-    f = repo.own("TimeIntegrationAdapter", "_source_updated")
+    f = repo.method("SumOverTime", "_source_updated")
     o = Order()
     tn = Sym("tn")
     o.name(tn, "tn", 5)
@@ -884,7 +927,7 @@ def r26_buffer(repo, sink):
                ok="later notifications leave the previous-pull time alone", bad="a notification overwrites the previous-pull time (integration interval lost)")
     # empty buffer -> FinamNoDataError in both _get_data
     for cname, rep in (("TimeCachingAdapter", "NextTime"), ("TimeIntegrationAdapter", "SumOverTime")):
-        g = repo.own(cname, "_get_data")
+        g = repo.method(rep, "_get_data")
         it = BufInterp(repo, make_order(0, {Q: ("below",)}))
         try:
             it.run(g, [Q, None], self_obj=_adapter_obj(repo, rep, 0, extra={PREV: None}))
